@@ -83,7 +83,7 @@ def gen_lines(rng, tier, boost=False):
     if tier == "quick" and not boost:
         plan = [(2, 40, 200), (4, 40, 200), (8, 24, 200)]
     else:
-        plan = [(2, 120, 300), (4, 120, 300), (8, 120, 300)]
+        plan = [(2, 500, 400), (4, 500, 400), (8, 400, 400)] if tier != "quick" else [(2, 120, 300), (4, 120, 300), (8, 120, 300)]
     for T, rounds, nops in plan:
         for _ in range(rounds):
             lines.append("run %d %d %d" % (T, rng.randrange(1, 10 ** 9), nops))
@@ -136,9 +136,11 @@ def run(ctx, vlib):
         bad_calls = IC.coq_eval("map uc_callee (filter (fun c => str_in (uc_callee c) nonreentrant) external_calls)")
         if inv.get("errors"):
             notes.append("inventory: clang failed on %s" % ", ".join(e["label"] for e in inv["errors"]))
-        have = set((s["file"], s["line"]) for s in inv["statics"])
+        # compared by (file, variable name): the textual scan does not evaluate #if, so line numbers of alternative
+        # branches differ from what the compiler saw
+        have = set((s["file"], s["name"].split("::")[-1]) for s in inv["statics"])
         for rel, line, name in text_scan_statics():
-            if (rel, line) not in have:
+            if (rel, name) not in have:
                 missing.append("%s:%d %s" % (rel, line, name))
         if missing:
             diffs.append(dict(driver="inventory", case="textual scan for static declarations", implementation="; ".join(missing[:10]),
